@@ -1,27 +1,102 @@
-(* C06 -- variables and arrays (statements grow with Proofs/Store.v). *)
-From BL Require Import Base.Prelude Base.Floats Mach.Val Mach.Var.
+(* C06 -- variables and arrays are typed, zero-initialised, bounds-checked, never aliased.
+   Statements only; proofs in Proofs/Vars.v (and Proofs/DecN.v for the decimal rendering of subscripts).
+   `well_typed vs`: every stored entry holds a value of the type its key demands (suffix, else DEFtype of the letter).
+   It holds of the empty store and is preserved by assignment, by DEFtype and (trivially) by CLEAR; reading always
+   returns a value of the variable's own type.  Distinct keys never share storage (store_frame), and distinct
+   variables / array elements have distinct keys (array_key_inj, array_key_not_scalar).
+   Assumption made explicit in the statements: names contain no comma (the lexer produces none). *)
+From BL Require Import Base.Prelude Base.Floats Mach.Val Mach.Var Mach.Compile Mach.Runtime Proofs.Vars.
+From Coq Require Import String.
 Local Open Scope N_scope.
 
-(* a key that is not stored reads as the zero of its own type *)
 Theorem C06_zero_init : forall vs k t, alist_get k (vs_vars vs) = None -> key_type (vs_types vs) k = Some t ->
   var_fetch vs k = Ok (zero_of t).
-Proof. intros vs k t H1 H2. unfold var_fetch. rewrite H1, H2. reflexivity. Qed.
+Proof. exact fetch_unassigned. Qed.
 Print Assumptions C06_zero_init.
 
-(* conversion to a variable's type yields a value of exactly that type, or an error *)
 Theorem C06_convert_typed : forall t v v', convert_to t v = Ok v' -> val_type v' = Some t.
-Proof.
-  intros t v v' H. destruct t; cbn in H.
-  - destruct v; try (cbn in H; unfold bind in H;
-      match type of H with (match ?e with _ => _ end) = _ => destruct e end; try discriminate; injection H as <-; reflexivity);
-      try (injection H as <-; reflexivity); try discriminate.
-  - destruct v; try (cbn in H; unfold bind in H;
-      match type of H with (match ?e with _ => _ end) = _ => destruct e end; try discriminate; injection H as <-; reflexivity);
-      try (injection H as <-; reflexivity); try discriminate.
-  - destruct v; try (cbn in H; unfold bind in H;
-      match type of H with (match ?e with _ => _ end) = _ => destruct e end; try discriminate; injection H as <-; reflexivity);
-      try (injection H as <-; reflexivity); try discriminate.
-  - destruct v; try discriminate.
-    destruct (255 <? lenN s); [discriminate | injection H as <-; reflexivity].
-Qed.
+Proof. exact convert_to_type. Qed.
 Print Assumptions C06_convert_typed.
+
+Theorem C06_empty_typed : well_typed vars_empty.
+Proof. exact well_typed_empty. Qed.
+Print Assumptions C06_empty_typed.
+
+Theorem C06_store_typed : forall vs k v vs', well_typed vs -> var_store vs k v = Ok vs' -> well_typed vs'.
+Proof. exact store_typed. Qed.
+Print Assumptions C06_store_typed.
+
+Theorem C06_deftype_typed : forall vs t from to vs', well_typed vs -> var_def vs t from to = Ok vs' -> well_typed vs'.
+Proof. exact def_typed. Qed.
+Print Assumptions C06_deftype_typed.
+
+Theorem C06_fetch_typed : forall vs k v t, well_typed vs -> key_type (vs_types vs) k = Some t ->
+  var_fetch vs k = Ok v -> val_type v = Some t.
+Proof. exact fetch_typed. Qed.
+Print Assumptions C06_fetch_typed.
+
+Theorem C06_store_then_fetch : forall vs k v vs' t v', key_type (vs_types vs) k = Some t -> convert_to t v = Ok v' ->
+  var_store vs k v = Ok vs' -> var_fetch vs' k = Ok (if is_default v' then zero_of t else v').
+Proof. exact store_then_fetch. Qed.
+Print Assumptions C06_store_then_fetch.
+
+Theorem C06_store_frame : forall vs k v vs' k', var_store vs k v = Ok vs' -> k' <> k -> var_fetch vs' k' = var_fetch vs k'.
+Proof. exact store_frame. Qed.
+Print Assumptions C06_store_frame.
+
+Theorem C06_deftype_frame : forall vs t from to vs' cf ct f' o' k v, var_def vs t from to = Ok vs' ->
+  to_str from = Ok (cf :: f') -> to_str to = Ok (ct :: o') -> In (k, v) (vs_vars vs) ->
+  (suffixed k = true \/ match after_last_dot k k with c :: _ => (cf <=? c) && (c <=? ct) | [] => false end = false) ->
+  In (k, v) (vs_vars vs').
+Proof. exact def_frame. Qed.
+Print Assumptions C06_deftype_frame.
+
+Theorem C06_array_bounds : forall vs name arr vs1 k, build_array_key vs name arr = (vs1, Ok k) ->
+  exists req dim,
+    subscripts arr = Ok req /\ k = array_key name req
+    /\ alist_get name (vs_dims vs1) = Some dim
+    /\ (alist_get name (vs_dims vs) = None -> dim = repeat 10%Z (List.length req))
+    /\ (forall d, alist_get name (vs_dims vs) = Some d -> dim = d /\ vs1 = vs)
+    /\ Forall (fun r => 0 <= r)%Z req /\ Forall2 (fun r d => r <= d)%Z req dim.
+Proof. exact array_key_bounds. Qed.
+Print Assumptions C06_array_bounds.
+
+Theorem C06_array_rejects : forall vs name arr req dim,
+  subscripts arr = Ok req ->
+  dim = match alist_get name (vs_dims vs) with Some d => d | None => repeat 10%Z (List.length req) end ->
+  (List.length dim <> List.length req \/ exists i r d, nth_error req i = Some r /\ nth_error dim i = Some d /\ (d < r)%Z) ->
+  snd (build_array_key vs name arr) = err E_Subscript.
+Proof. exact array_key_rejects. Qed.
+Print Assumptions C06_array_rejects.
+
+Theorem C06_dim_twice : forall vs name arr d, alist_get name (vs_dims vs) = Some d -> var_dimension vs name arr = err E_Redim.
+Proof. exact dim_twice. Qed.
+Print Assumptions C06_dim_twice.
+
+Theorem C06_erase_then_dim : forall vs name vs', var_erase vs name = Ok vs' -> alist_get name (vs_dims vs') = None.
+Proof. exact erase_then_dim. Qed.
+Print Assumptions C06_erase_then_dim.
+
+Theorem C06_array_key_inj : forall name name' idx idx', comma_free name -> comma_free name' ->
+  Forall (fun i => 0 <= i)%Z idx -> Forall (fun i => 0 <= i)%Z idx' ->
+  array_key name idx = array_key name' idx' -> name = name' /\ idx = idx'.
+Proof. exact array_key_inj. Qed.
+Print Assumptions C06_array_key_inj.
+
+Theorem C06_array_key_not_scalar : forall name idx k, comma_free k -> array_key name idx <> k.
+Proof. exact array_key_not_scalar. Qed.
+Print Assumptions C06_array_key_not_scalar.
+
+(* non-vacuity: a typed store with a scalar and an array element; DEFINT A-B drops the Single in A, keeps A! and Z *)
+Definition C06_witness_run : option (res val * res val * res val) :=
+  match var_store vars_empty (s2l "A"%string) (VSng 1069547520) with            (* A = 1.5 *)
+  | Ok vs1 => match var_store vs1 (s2l "A!"%string) (VSng 1069547520) with
+    | Ok vs2 => match var_store vs2 (s2l "Z"%string) (VInt 7) with
+      | Ok vs3 => match var_def vs3 TInt (VStr (s2l "A"%string)) (VStr (s2l "B"%string)) with
+        | Ok vs4 => Some (var_fetch vs4 (s2l "A"%string), var_fetch vs4 (s2l "A!"%string), var_fetch vs4 (s2l "Z"%string))
+        | _ => None end
+      | _ => None end
+    | _ => None end
+  | _ => None end.
+Example C06_witness : C06_witness_run = Some (Ok (VInt 0), Ok (VSng 1069547520), Ok (VSng 1088421888)).
+Proof. vm_compute. reflexivity. Qed.
